@@ -34,6 +34,8 @@ func runC08(r *Run, verifDir string) {
 	c08K8NilItems(r)
 	c08K9RequestsOnly(r)
 	c08K3RecoveredError(r, "C08.K3")
+	r.Rule("C08.K11", "terminate closes the stream on every path (early exits only through a sound idempotence test)", 1)
+	terminateClosesStream(r, "C08.K11", "kmipserver")
 }
 
 // ---------------------------------------------------------------- K3
